@@ -984,8 +984,9 @@ class MultiUserChannelMatrix:  # pylint: disable=R0902
         self._H_with_pathloss = None
 
         self._K = K
-        self._Nr = Nr_array
-        self._Nt = Nt_array
+        # Keep our own copies: the caller may reuse its arrays afterwards
+        self._Nr = np.array(Nr_array)
+        self._Nt = np.array(Nt_array)
 
         self._big_H_no_pathloss = channel_matrix
 
